@@ -98,7 +98,7 @@ fn c15_path(path: &[Sym], out: &mut Vec<Viol>, counts: &mut Counts) {
 pub fn run_c15(tier: Tier) -> ! {
     let ctx = Ctx::new("C15", tier);
     let alpha = c15_alphabet();
-    let depth = tier.pick(4u32, 5);
+    let depth = tier.pick(5u32, 6);
     let k = alpha.len() as u64;
     let mut tally = Tally::new();
     let mut counts = Counts::default();
@@ -594,14 +594,17 @@ pub fn run_c11(tier: Tier) -> ! {
     let mut tally = Tally::new();
     let mut counts = Counts::default();
     let streams = c11_streams();
-    let kmax = tier.pick(2usize, 3);
+    let kmax = tier.pick(3usize, 4);
     // work items: (stream, driver, budget, first deviation) for parallelism
     let mut items: Vec<(usize, Driver, usize, usize)> = vec![];
     for (si, s) in streams.iter().enumerate() {
         for drv in Driver::ALL {
             for k in 0..=kmax {
-                if k == 3 && (s.len() > 32 || !matches!(drv, Driver::Next | Driver::ReadNb)) {
-                    continue; // three deviations: shorter streams, two drivers
+                if k == 3 && tier == Tier::Quick && (s.len() > 32 || !matches!(drv, Driver::Next | Driver::ReadNb)) {
+                    continue; // quick tier, three deviations: shorter streams, two drivers
+                }
+                if k == 4 && (s.len() > 24 || !matches!(drv, Driver::Next)) {
+                    continue; // four deviations: the short streams, driver next
                 }
                 let ncalls = s.len() + k + 2;
                 if k == 0 {
